@@ -16,7 +16,7 @@ SOURCES = ('inline', 'dict', 'struct', 'hdf5', 'mixed')
 
 @st.composite
 def strategy(draw):
-    prof = Profile(vrl=[256, 8192], max_frames=2, max_channels=4, max_rows=16, max_width=5, casts=True,
+    prof = Profile(vrl=[256, 8192], max_frames=2, max_channels=4, max_rows=16, max_width=5, casts=True, any_casts=True,
                    layouts=('C', 'F', 'strided', 'neg', 'ro', 'view'), specials=True, units=False,
                    sources=('struct',), chunks=True, windows=True, upper_names=True)
     spec = draw(file_specs(prof))
